@@ -85,19 +85,32 @@ def generate(rng, tier, index):
         st = None
         if i < 2 or x < 0.28 or not ctx.objs:
             st = creator(a)
-        elif x < 0.50:
+        elif x < 0.36:
+            # lifecycle of a live object: a destroyed object may have been
+            # active, deactivated or compromised before
+            o = r.choice(ctx.objs)
+            k = r.choice(['Activate', 'Activate', 'RevokeKC', 'RevokeKC',
+                          'Revoke'])
+            if k == 'Activate':
+                st = {'actor': o['owner'], 'ver': [1, 2], 'items': [
+                    {'op': 'Activate', 'uid': '@' + o['label']}]}
+            else:
+                st = {'actor': o['owner'], 'ver': [1, 2], 'items': [
+                    {'op': 'Revoke', 'uid': '@' + o['label'],
+                     'code': 2 if k == 'RevokeKC' else r.choice([1, 5])}]}
+        elif x < 0.56:
             # destroy (the newest, usually) ...
             o = ctx.objs[-1] if r.random() < 0.6 else r.choice(ctx.objs)
             st = destroy(o)
-        elif x < 0.56:
+        elif x < 0.61:
             # destroy everything
             for o in list(ctx.objs):
                 steps.append(destroy(o))
             continue
-        elif x < 0.66:
+        elif x < 0.70:
             steps.append({'restart': True})
             continue
-        elif x < 0.82 and dead:
+        elif x < 0.84 and dead:
             d = r.choice(dead)
             name = r.choice(DEAD_OPS)
             ref = '@' + d['label']
